@@ -150,7 +150,8 @@ func vpH_C14_tx() {
 	})
 	err := insertEvents(context.Background(), new(sql.DB), 0, nil)
 	if nsets == 0 {
-		vpAssert(err == nil && len(l.events) == 0, "C14.nothing-to-insert-no-transaction")
+		// nothing to insert: no error, and a transaction that was opened nevertheless is finished
+		vpAssert(err == nil && l.count("begin") == l.count("commit")+l.count("rollback"), "C14.nothing-to-insert-leaves-no-open-transaction")
 		vpReach("end")
 		return
 	}
@@ -170,7 +171,6 @@ func vpH_C14_tx() {
 	} else {
 		vpAssert(err == nil, "C14.success-has-no-error")
 		vpAssert(l.count("commit") == 1 && l.count("rollback") == 0, "C14.success-commits-once")
-		vpAssert(l.count("prepare") == 5, "C14.five-statements-prepared")
 	}
 	vpReach("end")
 }
